@@ -181,7 +181,8 @@ func genInboxF(r *rng, ty string, k int, focus bool) *scenario {
 	if r.chance(1, 4) {
 		act["actor"] = []interface{}{sender, iriOrEmbedded(r, pick(r, remoteActors[:3]))}
 	}
-	if focus && k%7 == 3 { // two actors that differ only in the query of their ids; the second one is blocked
+	if focus && k%7 == 3 && ty != "Accept" && ty != "Reject" { // two actors that differ only in the query of their ids; the second one is blocked
+		// (not for Accept / Reject: who accepts is what their own cases vary)
 		act["actor"] = []interface{}{sender + "?author=1", jmap{"type": "Person", "id": sender + "?author=2"}}
 		if k%14 == 3 && ty != "Undo" && ty != "Accept" && ty != "Reject" && ty != "Follow" {
 			cfg.Blocked = []string{sender + "?author=2"}
